@@ -218,3 +218,13 @@ struct CidTimestamp {
     /// Timestamp when cid needs to be retired
     timestamp: Instant,
 }
+
+#[cfg(feature = "verif-hooks")]
+impl CidState {
+    /// (issued, sorted active sequence numbers), for external verification harnesses
+    pub(crate) fn verif_probe(&self) -> (u64, Vec<u64>) {
+        let mut active: Vec<u64> = self.active_seq.iter().copied().collect();
+        active.sort_unstable();
+        (self.issued, active)
+    }
+}
